@@ -564,14 +564,20 @@ class GAtom(VerificationStrategy[G, Tree]):
 
 
 class GVerify(VerificationStrategy[G, Tree]):
-    """Verifies the given alternative classes by plain enumeration (no pack)."""
+    """Verifies the given alternative classes (n, i) and nonterminal classes (n,) by plain
+    enumeration.  pack_name: the pack offered for expanding them (none by default)."""
 
-    def __init__(self, alts=(), ignore_parent: bool = False):
+    def __init__(self, alts=(), ignore_parent: bool = False, pack_name: Optional[str] = None):
         self.alts = tuple(sorted(tuple(a) for a in alts))
+        self.pack_name = pack_name
         super().__init__(ignore_parent=ignore_parent)
 
     def verified(self, c: G) -> bool:
-        return c.kind == "A" and tuple(c.ref) in self.alts and not c.is_empty()
+        if c.is_empty():
+            return False
+        if c.kind == "A":
+            return tuple(c.ref) in self.alts
+        return c.kind == "N" and (c.ref,) in self.alts
 
     def formal_step(self) -> str:
         return f"verified alternative {self.alts}"
@@ -594,19 +600,22 @@ class GVerify(VerificationStrategy[G, Tree]):
         return rl.random.choice(list(c.objects_of_size(n, **parameters)))
 
     def pack(self, c: G) -> StrategyPack:
-        raise InvalidOperationError("no pack")
+        if self.pack_name is None:
+            raise InvalidOperationError("no pack")
+        return g_pack(self.pack_name)
 
     def to_jsonable(self) -> dict:
         d = super().to_jsonable()
         d["alts"] = [list(a) for a in self.alts]
+        d["pack_name"] = self.pack_name
         return d
 
     @classmethod
     def from_dict(cls, d: dict) -> "GVerify":
-        return cls(tuple(tuple(a) for a in d["alts"]), ignore_parent=d.get("ignore_parent", False))
+        return cls(tuple(tuple(a) for a in d["alts"]), ignore_parent=d.get("ignore_parent", False), pack_name=d.get("pack_name"))
 
     def __repr__(self) -> str:
-        return f"GVerify({self.alts})"
+        return f"GVerify({self.alts})" if self.pack_name is None else f"GVerify({self.alts}, pack={self.pack_name})"
 
     def __str__(self) -> str:
         return self.formal_step()
@@ -641,14 +650,25 @@ class GContext(_StrategyFactory[G]):
 def g_pack(name: str = "g") -> StrategyPack:
     if name.startswith("grev"):
         # "grev|skip=1,2|ver=3.0" : hidden nonterminals, alternatives verified by enumeration
-        opts = dict(x.split("=") for x in name.split("|")[1:])
+        #  verp=1|vp=grev/skip=3/ctx=0 : classes verified with the pack vp on offer ('/' for '|');
+        #  ctx=0 : without the context factory
+        opts = dict(x.split("=", 1) for x in name.split("|")[1:])
         skip = tuple(int(x) for x in opts.get("skip", "").split(",") if x)
-        ver = tuple(tuple(int(y) for y in x.split(".")) for x in opts.get("ver", "").split(",") if x)
+
+        def refs(text):
+            return tuple(tuple(int(y) for y in x.split(".")) for x in text.split(",") if x)
+
+        ver = [GAtom(), GVerify(refs(opts.get("ver", "")))]
+        if opts.get("verp"):
+            ver.append(GVerify(refs(opts["verp"]), pack_name=opts["vp"].replace("/", "|")))
+        exp = [Unfold(skip=skip), Factor(), Unit()]
+        if opts.get("ctx", "1") != "0":
+            exp.append(GContext())
         return StrategyPack(
             initial_strats=[],
             inferral_strats=[],
-            expansion_strats=[[Unfold(skip=skip), Factor(), Unit(), GContext()]],
-            ver_strats=[GAtom(), GVerify(ver)],
+            expansion_strats=[exp],
+            ver_strats=ver,
             name=name,
         )
     feats = name.split("+")
@@ -725,6 +745,32 @@ def reverse_universes() -> List[Tuple[Grammar, str, bool]]:
                 continue
             res.append((g, "grev|skip=1|ver=3.0", True))
             res.append((g, "grev|skip=1,2|ver=3.0", False))
+    return res
+
+
+@lru_cache(maxsize=None)
+def expand_universes() -> List[Tuple[Grammar, str]]:
+    """(grammar, pack name) for universes in which a verified class V that offers a pack can only
+    be expanded with a reverse rule: V = N1 -> W | X, W = N2 -> a X (verified by enumeration in
+    the outer search, so already specified when V is expanded), X = N3 hidden from Unfold and only
+    available as W / a after W itself has been expanded again.  Start R = N0 -> V W; in the second
+    family R -> V W | B b | P additionally needs a reverse rule of its own (B hidden, P = B C
+    verified), so the original specification already contains a ReverseRule."""
+    shapes = [
+        (("b", 3), ()),          # X -> b X | e
+        (("b", "b", 3), ("b",)),  # X -> b b X | b
+        (("b",), ("c", "c")),    # finite
+    ]
+    inner = "grev/skip=3/ctx=0"
+    res = []
+    for x in shapes:
+        g: Grammar = (((1, 2),), ((2,), (3,)), (("a", 3),), x)
+        if is_proper(g):
+            res.append((g, f"grev|skip=3|ver=2|verp=1|vp={inner}"))
+        # R -> V W | B b | P ;  B = N4 hidden, C = N5, P = N6 -> B C verified
+        g2: Grammar = (((1, 2), (4, "b"), (6,)), ((2,), (3,)), (("a", 3),), x, (("a", 4), ()), (("c",), ("c", "c")), ((4, 5),))
+        if is_proper(g2):
+            res.append((g2, f"grev|skip=3,4|ver=2,6.0|verp=1|vp={inner.replace('skip=3', 'skip=3,4')}"))
     return res
 
 
